@@ -38,3 +38,17 @@ Example C14_nonvacuous :
 Proof.
   split; [|reflexivity]. repeat constructor; cbn; intuition discriminate.
 Qed.
+
+(* ---- the listing order: Runner.get_result evaluates the points of an observable in the order of a stable sort by Q2 (dropping
+   the caches when Q2 changes) and stores each result in the slot of its own request: for ANY list of Q2 values the output is in
+   the order of the request, and every request is evaluated exactly once.  Model: RunnerOrder.v, tied by tools/corr/runnerorder.py *)
+From Yad Require Import RunnerOrder RunnerOrderTheorems.
+From Coq Require Import Permutation.
+Theorem C14_results_in_request_order (A : Type) (vals : nat -> A) (q2s : list Qcanon.Qc) :
+  results vals q2s = map (fun i => Some (vals i)) (seq 0 (List.length q2s)).
+Proof. exact (results_in_request_order vals q2s). Qed.
+Print Assumptions C14_results_in_request_order.
+Theorem C14_every_request_once (q2s : list Qcanon.Qc) : Permutation (evals (plan q2s)) (seq 0 (List.length q2s)).
+Proof. exact (every_request_once q2s). Qed.
+Print Assumptions C14_every_request_once.
+
